@@ -314,7 +314,7 @@ class Run:
                 if key not in [x[0] for x in self.known_seen]:
                     self.known_seen.append((key, k['description']))
                 return False
-        if len(self.violations) < 5 and key not in [v[0] for v in self.violations]:
+        if len(self.violations) < int(os.environ.get('VERIF_MAX_VIOLATIONS', '5')) and key not in [v[0] for v in self.violations]:
             self.violations.append((key, description, payload))
         else:
             self.count('violations_not_recorded')
